@@ -68,7 +68,9 @@ var badVersions = []string{"v1.0", "v1", "v1.0.0.0"}
 
 func majorOK(path, vers string) bool { return module.Check(path, vers) == nil }
 
-var fileNames = []string{"go.mod", "x.go", "sub/y.go", "sub/deep/z.txt", "README", ".hidden", "sub/.nested", ".dir/inner", "a b.txt", "UPPER.go", "sub/go.mod", "empty"}
+var fileNames = []string{"go.mod", "x.go", "sub/y.go", "sub/deep/z.txt", "README", ".hidden", "sub/.nested", ".dir/inner", "a b.txt", "UPPER.go", "sub/go.mod", "empty",
+	// below a dot-prefixed directory that is not at the top: the name does not start with a dot, so the file belongs in the zip
+	"internal/gen/.golden/out.txt", "testdata/.cache/v1/index.json", "sub/.d/deep/file", ".top/.below/x"}
 
 func genDir(r *rand.Rand, dir string) []modVersion {
 	var out []modVersion
